@@ -87,7 +87,11 @@ func runC11(c *ctx, via string, vol float64, repeat, freq, peak, sd time.Duratio
 			}
 			tr.Args += " written=" + wstr
 		}
-		rates, err := gaussian.CalculateGaussianRate(vol, jit, repeat, freq, peak, sd, wstr, "none")
+		dist := "none"
+		if strings.HasPrefix(via, "rates-dist-") {
+			dist = strings.TrimPrefix(via, "rates-dist-") // the profile spread over 100 ms sub-ticks: same volume, tick by tick
+		}
+		rates, err := gaussian.CalculateGaussianRate(vol, jit, repeat, freq, peak, sd, wstr, dist)
 		if err != nil && via == "rates-sloppy" {
 			tr.Via = "refused"
 			return tr
@@ -98,6 +102,23 @@ func runC11(c *ctx, via string, vol float64, repeat, freq, peak, sd time.Duratio
 			return tr
 		}
 		rateFn = rates.Rate
+		if dist != "none" && rates.IterationDuration > 0 && rates.IterationDuration < freq {
+			// one tick of the profile = the sub-ticks the trigger makes in it, called one after another as the iteration
+			// worker does; no sub-tick may be negative either
+			sub, n := rates.Rate, int(freq/rates.IterationDuration)
+			step := rates.IterationDuration
+			rateFn = func(t time.Time) int {
+				sum := 0
+				for q := 0; q < n; q++ {
+					v := sub(t.Add(time.Duration(q) * step))
+					if v < 0 {
+						return v
+					}
+					sum += v
+				}
+				return sum
+			}
+		}
 	}
 	nTicks := int(repeat / freq)
 	nWin := nw + 1
@@ -227,6 +248,9 @@ func init() {
 			}
 			if k%9 == 6 && len(weights) > 0 {
 				via = "rates-sloppy"
+			}
+			if k%11 == 5 && freq == time.Second {
+				via = []string{"rates-dist-random", "rates-dist-regular"}[c.rng.Intn(2)]
 			}
 			if tr := runC11(c, via, vol, repeat, freq, peak, sd, weights, t0); tr.Via != "refused" {
 				w.write(tr)
